@@ -946,14 +946,14 @@ bool client::try_parse_pasv_reply(const reply & reply, std::string & ip, uint16_
     ip.append(".");
     ip.append(address_tokens[3]);
 
-    std::uint16_t port_high;
-    if (!utils::try_parse_uint16(address_tokens[4], port_high))
+    std::uint8_t port_high;
+    if (!utils::try_parse_uint8(address_tokens[4], port_high))
     {
         return false;
     }
 
-    std::uint16_t port_low;
-    if (!utils::try_parse_uint16(address_tokens[5], port_low))
+    std::uint8_t port_low;
+    if (!utils::try_parse_uint8(address_tokens[5], port_low))
     {
         return false;
     }
